@@ -33,7 +33,7 @@ PROFILES = {
     "C09": {"w": {"bad_spawn": 14.0, "lock": 5.0, "unlock": 4.0, "gather": 3.0, "spawn": 1.3}},
     "C10": {"w": {"spawn": 2.0, "cancel_group": 3.0, "cancel_all": 1.5}, "named": 0.5},
     "C11": {"w": {"spawn": 2.0, "flush": 2.0, "new_pool": 12.0, "gather": 4.0}, "pools": [1, 2, 2, 3]},
-    "C12": {"w": {"gate_x": 5.0, "gate_c": 4.0, "flush": 2.5, "gather": 3.0}, "cb": [None, "s", "sx", "ax", "gx", "a"], "fail": 0.4, "endx": 0.3},
+    "C12": {"w": {"gate_x": 5.0, "gate_c": 4.0, "flush": 2.5, "gather": 3.0}, "cb": [None, "s", "sx", "ax", "gx", "a"], "fail": 0.4, "endx": 0.3, "retx": 0.2},
     "C13": {"w": {"flush": 7.0, "cancel": 2.0, "cancel_group": 1.5}, "cb": ["g", "g", "a", "s", None, "gx"]},
     "C14": {"w": {"stop": 8.0, "cancel": 2.0, "spawn": 1.5}, "simple": 1.0},
 }
@@ -64,6 +64,7 @@ class Gen:
         self.fail_rate = self.prof.get("fail", rng.choice([0.0, 0.0, 0.15]))
         self.endx = self.prof.get("endx", rng.choice([0.0, 0.05, 0.15]))
         self.named = self.prof.get("named", rng.choice([0.0, 0.2, 0.5]))
+        self.retx = self.prof.get("retx", rng.choice([0.0, 0.0, 0.1]))
         self.label = 0
         self.count = 0
 
@@ -96,6 +97,8 @@ class Gen:
         s = {"g": rng.choice([0, 1, 1, 1, 2, 3])}
         if rng.random() < self.endx:
             s["end"] = "x"
+        elif rng.random() < self.retx:
+            s["end"] = "rx"
         if rng.random() < self.stubborn:
             s["oc"] = [rng.choice(["s", "s", "r", "x"]) for _ in range(rng.choice([1, 1, 2]))]
             if s["g"] == 0:
